@@ -52,12 +52,13 @@ def parseLP : Nat → Bytes → Option (List Bytes)
 
 def parseLengthPrefixed (d : Bytes) : Option (List Bytes) := parseLP (d.length + 1) d
 
-/-! ### ADTS header fields by bit position (ISO/IEC 13818-7 / 14496-3 adts_fixed/variable_header) -/
-def byteBits (b : UInt8) : List Bool :=
-  (List.range 8).map fun i => b.toNat / 2^(7 - i) % 2 = 1
+/-! ### ADTS header fields by bit position (ISO/IEC 13818-7 / 14496-3 adts_fixed/variable_header)
 
-def bitField (f : Bytes) (start len : Nat) : Nat :=
-  (((f.flatMap byteBits).drop start).take len).foldl (fun acc b => 2 * acc + (if b then 1 else 0)) 0
+The first seven bytes are read as one 56-bit big-endian number; a field that starts at bit
+`start` (bit 0 = most significant) and is `len` bits wide is `H / 2^(56-start-len) % 2^len`. -/
+def headerNat (f : Bytes) : Nat := (f.take 7).foldl (fun acc b => acc * 256 + b.toNat) 0
+
+def bitField (f : Bytes) (start len : Nat) : Nat := headerNat f / 2^(56 - start - len) % 2^len
 
 def adtsProtectionAbsent (f : Bytes) : Bool := bitField f 15 1 = 1
 def adtsDeclaredLength (f : Bytes) : Nat := bitField f 30 13
@@ -66,7 +67,9 @@ def adtsHeaderBytes (f : Bytes) : Nat := if adtsProtectionAbsent f then 7 else 9
 /-- the payload the property demands for an accepted frame -/
 def adtsPayload (f : Bytes) : Bytes := (f.take (adtsDeclaredLength f)).drop (adtsHeaderBytes f)
 
-/-- structural validity of an ADTS frame, field by field (the "structurally valid ADTS" of C04) -/
+/-- structural validity of an ADTS frame, field by field: syncword, MPEG-4 ID, layer 0, a complete
+    header, a defined sampling-frequency index, a non-zero channel configuration, and a declared
+    frame length that covers the header and fits the buffer -/
 def adtsValid (f : Bytes) : Bool :=
   f.length ≥ 7 ∧ bitField f 0 12 = 0xFFF ∧ bitField f 12 1 = 0 ∧ bitField f 13 2 = 0 ∧
   f.length ≥ adtsHeaderBytes f ∧ bitField f 18 4 ≤ 12 ∧ bitField f 23 3 ≠ 0 ∧
